@@ -137,6 +137,13 @@ class Filenames(object):
             return filename + self.extension
         return filename
 
+    def substituteChars(self, value):
+        """ Replace the characters that are illegal in a filename """
+        if self.charsub:
+            for char in self.charsub[0]:
+                value = value.replace(char, self.charsub[1])
+        return value
+
     def _newFilename(self, g):
         """
         Generator that generates new filenames
@@ -182,13 +189,8 @@ class Filenames(object):
                     currentns['num'] = ('%%.%sd' % format) % num
                 # Limit other variables to specified number of words
                 elif format and key in currentns:
-                    value = currentns[key].split()
-                    newvalue = []
-                    for i in range(int(format)):
-                        newvalue.append(value.pop(0))
-                        if not value:
-                            break
-                    currentns[key] = ' '.join(newvalue)
+                    value = self.variables[key].split()[:int(format)]
+                    currentns[key] = self.substituteChars(' '.join(value))
             try:
                 # Strip formats
                 item = re.sub(r'(\$\{\w+)\.\d+(\})', r'\1\2', item)
@@ -224,13 +226,8 @@ class Filenames(object):
                         currentns['num'] = ('%%.%sd' % format) % num
                     # Limit other variables to specified number of words
                     elif format and key in currentns:
-                        value = currentns[key].split()
-                        newvalue = []
-                        for i in range(int(format)):
-                            newvalue.append(value.pop(0))
-                            if not value:
-                                break
-                        currentns[key] = ' '.join(newvalue)
+                        value = self.variables[key].split()[:int(format)]
+                        currentns[key] = self.substituteChars(' '.join(value))
                 try:
                     # Strip formats
                     item = re.sub(r'(\$\{\w+)\.\d+(\})', r'\1\2', item)
